@@ -33,6 +33,7 @@ type Reader struct {
 	objStmCache map[int]*core.ObjectStream // Cache for object streams
 	fileSize    int64
 	pageTree    *pages.PageTree // Cached page tree
+	loading     map[int]bool    // Objects being loaded right now (GetObject)
 }
 
 // Ensure Reader implements pages.ObjectResolver
@@ -182,6 +183,18 @@ func (r *Reader) GetObject(objNum int) (core.Object, error) {
 	if !entry.InUse {
 		return nil, fmt.Errorf("object %d is not in use", objNum)
 	}
+
+	// Loading an object can ask for others (a stream's indirect /Length, an
+	// object stream): an object that is asked for again while it is being
+	// loaded depends on itself
+	if r.loading[objNum] {
+		return nil, fmt.Errorf("object %d is needed to load itself", objNum)
+	}
+	if r.loading == nil {
+		r.loading = make(map[int]bool)
+	}
+	r.loading[objNum] = true
+	defer delete(r.loading, objNum)
 
 	var obj core.Object
 	var err error
